@@ -510,29 +510,30 @@ def prior_case(S, strat, M, n):
     S.prove_eq(kl_t, Sym.const(0.0), "q(u)=p(u): KL = 0")
 
 
-def multitask(S, kind, M, n, T, Q):
+def multitask(S, kind, M, n, T, Q, B=0):
     """IndependentMultitask / LMC wrappers mix the latent q(f) with the stated coefficients"""
     N = M + n
     nl = T if kind == "independent" else Q  # number of latent GPs
-    bs = (nl,)
+    bs = (nl, B) if B else (nl,)  # B > 0: an extra batch dimension AFTER the latent dimension (latent_dim / task_dim = -2)
+    ldim = -2 if B else -1
     Z, X = labels(0, M, bs), labels(M, N)
     Gs, Gc = S.factor("g", N, bs)
     jit = float(gpytorch.settings.variational_cholesky_jitter.value(torch.float64))
     table = Gc @ Gc.transpose(-1, -2) - jit * torch.eye(N)
     J = Gs @ np.swapaxes(Gs, -1, -2)
     K = J.copy()
-    for b in range(nl):
+    for b in np.ndindex(*bs):
         for i in range(N):
-            K[b, i, i] = K[b, i, i] - Sym.const(jit)
+            K[b + (i, i)] = K[b + (i, i)] - Sym.const(jit)
     d, Mq, Cq = _make_dist(S, "cholesky", M, bs)
 
     class MT(ApproximateGP):
         def __init__(self_):
             base = V.VariationalStrategy(self_, Z, d, learn_inducing_locations=False)
             if kind == "independent":
-                strat = V.IndependentMultitaskVariationalStrategy(base, num_tasks=T, task_dim=-1)
+                strat = V.IndependentMultitaskVariationalStrategy(base, num_tasks=T, task_dim=ldim)
             else:
-                strat = V.LMCVariationalStrategy(base, num_tasks=T, num_latents=Q, latent_dim=-1)
+                strat = V.LMCVariationalStrategy(base, num_tasks=T, num_latents=Q, latent_dim=ldim)
             super().__init__(strat)
             self_.mean_module = make_mean("constant", bs)
             self_.covar_module = TableKernel(table)
@@ -549,19 +550,26 @@ def multitask(S, kind, M, n, T, Q):
     model.variational_strategy.base_variational_strategy.variational_params_initialized.fill_(1)
     with S.mode():
         mall = as_sym_arr(SH.get(model.mean_module(labels(0, N, bs))))
-        out = model(X)
-        mean_t, cov_t = out.mean, out.covariance_matrix
+        out = S.must_not_raise("%s multitask model call (latent/task dim %d)" % (kind, ldim), lambda: model(X))
+        mean_all, cov_all = out.mean, out.covariance_matrix
         inter = out._interleaved
+    for bb in (range(B) if B else [None]):
+        _multitask_ref(S, kind, M, n, T, nl, jit, inter, Gs, K, J, mall, Mq, Cq, ((W[:, bb, :] if (B and W.ndim == 3) else W) if kind == "lmc" else None),
+                       mean_all[bb] if B else mean_all, cov_all[bb] if B else cov_all, (lambda l: (l, bb)) if B else (lambda l: (l,)),
+                       ("batch %d: " % bb) if B else "")
+
+
+def _multitask_ref(S, kind, M, n, T, nl, jit, inter, Gs, K, J, mall, Mq, Cq, W, mean_t, cov_t, at, tag):
     # latent q(f_l)
     Lm, Lc = [], []
     for l in range(nl):
-        Gz = Gs[l][:M, :M]
-        Kxz = K[l][M:, :M]
+        Gz = Gs[at(l)][:M, :M]
+        Kxz = K[at(l)][M:, :M]
         A = spd_solve(Gz, Kxz.T)
-        mu = mall[l][M:] + (A.T @ (Gz @ Mq[l].reshape(M, 1))).reshape(n)
-        Su = Gz @ Cq[l] @ Gz.T
+        mu = mall[at(l)][M:] + (A.T @ (Gz @ Mq[at(l)].reshape(M, 1))).reshape(n)
+        Su = Gz @ Cq[at(l)] @ Gz.T
         Lm.append(mu)
-        Lc.append(J[l][M:, M:] + A.T @ (Su - J[l][:M, :M]) @ A)
+        Lc.append(J[at(l)][M:, M:] + A.T @ (Su - J[at(l)][:M, :M]) @ A)
     Mref = np.empty((n, T), dtype=object)
     Cref = np.empty((n * T, n * T), dtype=object)
     pos = (lambda i, a: i * T + a) if inter else (lambda i, a: a * n + i)
@@ -580,8 +588,8 @@ def multitask(S, kind, M, n, T, Q):
                     if kind == "lmc" and i == j and a == c:
                         v = v + Sym.const(jit)  # LMCVariationalStrategy adds its documented jitter_val to the mixed covariance
                     Cref[pos(i, a), pos(j, c)] = v
-    S.prove_eq(mean_t, Mref, "%s multitask mean" % kind)
-    S.prove_eq(cov_t, Cref, "%s multitask covariance (stored layout, interleaved=%s)" % (kind, inter))
+    S.prove_eq(mean_t, Mref, tag + "%s multitask mean" % kind)
+    S.prove_eq(cov_t, Cref, tag + "%s multitask covariance (stored layout, interleaved=%s)" % (kind, inter))
 
 
 def scenarios(tier, seed):
@@ -602,6 +610,8 @@ def scenarios(tier, seed):
         add("skipvar_history", M=2, n=2)
         add("multitask", kind="independent", M=2, n=2, T=2, Q=0)
         add("multitask", kind="lmc", M=2, n=2, T=2, Q=2)
+        add("multitask", kind="lmc", M=1, n=2, T=2, Q=2, B=2)
+        add("multitask", kind="independent", M=1, n=2, T=2, Q=0, B=2)
         add("grid_interp", G=5, d=1, dist="cholesky")
         add("grid_interp", G=4, d=2, dist="meanfield")
         add("batch_decoupled", M=2, n=2, dist="cholesky", training=False)
@@ -629,6 +639,9 @@ def scenarios(tier, seed):
         add("multitask", kind="independent", M=2, n=1, T=3, Q=0)
         add("multitask", kind="lmc", M=2, n=2, T=2, Q=2)
         add("multitask", kind="lmc", M=2, n=1, T=3, Q=2)
+        add("multitask", kind="lmc", M=1, n=2, T=2, Q=2, B=2)
+        add("multitask", kind="lmc", M=2, n=1, T=2, Q=3, B=2)
+        add("multitask", kind="independent", M=1, n=2, T=2, Q=0, B=2)
         for dist in ("cholesky", "meanfield"):
             add("grid_interp", G=5, d=1, dist=dist)
             add("grid_interp", G=6, d=1, dist=dist, batch=2)
